@@ -7,6 +7,7 @@
 From VLS Require Import Base.U64 Model.CommitmentPolicy Proofs.CommitmentPolicyProofs.
 From VLS Require Gen.TxUtilGen Proofs.TxUtilGenProofs.
 From VLS Require Gen.CommitmentPolicyGen Proofs.CommitmentPolicyGenProofs.
+From VLS Require Gen.EnforcementGen Gen.EnforcementRulesGen Proofs.CommitmentEntryGenProofs.
 
 (** Under a non-permissive filter, whichever entry point accepts a commitment (simple or
     on-chain validator, counterparty or holder side), for every policy, setup, chain state,
@@ -451,3 +452,55 @@ Theorem C05_source_accept_implies_bounds :
            (CommitmentPolicyGenProofs.abs_chain gcs) commit_num (CommitmentPolicyGenProofs.abs_info gi).
 Proof. exact CommitmentPolicyGenProofs.source_accept_implies_bounds. Qed.
 Print Assumptions C05_source_accept_implies_bounds.
+
+(** The two entry points are the source's as well.  Gen/EnforcementRulesGen.v is the statement-by-statement
+    translation of SimpleValidator's validate_counterparty_commitment_tx and
+    validate_holder_commitment_tx - whole bodies: the call of validate_commitment_tx with its `?`, the
+    revocation window (policy-commitment-previous-revoked), the retry rules against the stored point
+    and contents (policy-commitment-retry-same; on the holder side a panic when there is no current
+    commitment), policy-commitment-holder-not-revoked and the closed-channel rule
+    (policy-commitment-spends-active-utxo) - over the EnforcementState record of Gen/EnforcementGen.v.
+    In the translation the answer of the call `self.validate_commitment_tx(estate, commit_num,
+    commitment_point, setup, cstate, info2)` is a parameter; here it is the translated
+    validate_commitment_tx of Gen/CommitmentPolicyGen.v for the same number, so the statements are about
+    the whole functions and compose with [C05_commitment_rules_are_source].  The entry points see the
+    setup, the chain state and the content as identities ([sid], [csid], [c]; `==` on contents and
+    points is equality of identities), and [abs_estate ge pt c] computes the model's comparison
+    answers from the source-level state.  Dropped: the leading `if let Some(current) = .. { log the
+    HTLC deltas }` block, the debugging guard, logging.  Same side condition as
+    [C05_commitment_rules_are_source]; refusal tags and panics included, every filter, both profiles. *)
+Theorem C05_counterparty_rules_are_source :
+  forall (prof : profile) (swarn : string -> bool) (gp : CommitmentPolicyGen.SimplePolicy)
+         (ge : EnforcementGen.res) (commit_num pt eid pid sid csid c : N)
+         (gs : CommitmentPolicyGen.ChannelSetup) (gcs : CommitmentPolicyGen.ChainState)
+         (gi : CommitmentPolicyGen.CommitmentInfo2),
+    CommitmentPolicyGenProofs.commit_fits gs gi = true ->
+    EnforcementRulesGen.gen_validate_counterparty_commitment_tx prof swarn
+      (CommitmentPolicyGen.gen_validate_commitment_tx prof swarn gp HTLC_TIMEOUT_WEIGHT HTLC_SUCCESS_WEIGHT
+         eid commit_num pid gs gcs gi)
+      ge commit_num pt sid csid c =
+    CommitmentPolicyGenProofs.of_res
+      (validate_counterparty_commitment est_new prof (CommitmentPolicyGenProofs.tag_filter swarn)
+         (CommitmentPolicyGenProofs.abs_policy gp) (CommitmentEntryGenProofs.abs_estate ge pt c)
+         (CommitmentPolicyGenProofs.abs_setup gs) (CommitmentPolicyGenProofs.abs_chain gcs) commit_num
+         (CommitmentPolicyGenProofs.abs_info gi)).
+Proof. exact CommitmentEntryGenProofs.gen_counterparty_is_model. Qed.
+Print Assumptions C05_counterparty_rules_are_source.
+
+Theorem C05_holder_rules_are_source :
+  forall (prof : profile) (swarn : string -> bool) (gp : CommitmentPolicyGen.SimplePolicy)
+         (ge : EnforcementGen.res) (commit_num pt eid pid sid csid c : N)
+         (gs : CommitmentPolicyGen.ChannelSetup) (gcs : CommitmentPolicyGen.ChainState)
+         (gi : CommitmentPolicyGen.CommitmentInfo2),
+    CommitmentPolicyGenProofs.commit_fits gs gi = true ->
+    EnforcementRulesGen.gen_validate_holder_commitment_tx prof swarn
+      (CommitmentPolicyGen.gen_validate_commitment_tx prof swarn gp HTLC_TIMEOUT_WEIGHT HTLC_SUCCESS_WEIGHT
+         eid commit_num pid gs gcs gi)
+      ge commit_num pt sid csid c =
+    CommitmentPolicyGenProofs.of_res
+      (validate_holder_commitment est_new prof (CommitmentPolicyGenProofs.tag_filter swarn)
+         (CommitmentPolicyGenProofs.abs_policy gp) (CommitmentEntryGenProofs.abs_estate ge pt c)
+         (CommitmentPolicyGenProofs.abs_setup gs) (CommitmentPolicyGenProofs.abs_chain gcs) commit_num
+         (CommitmentPolicyGenProofs.abs_info gi)).
+Proof. exact CommitmentEntryGenProofs.gen_holder_is_model. Qed.
+Print Assumptions C05_holder_rules_are_source.
